@@ -123,8 +123,43 @@ SHAPES = {
 }
 SHAPES_BY_PROPERTY = {"C04": ["formats.wav:RiffStruct"]}
 
+# ---------------------------------------------------------------------------------------------------------------------------
+# AKAI program header / keygroup / velocity zone (C20): generated from the field tables of the INDEPENDENT program writer
+# (bounded/akai_program_writer.py, written by a separate agent from the S1000 format description): printed key = field name,
+# offset, one byte, signedness.  Fields behind the variable-size zone block of a keygroup have no static offset in the
+# declaration; they are judged by the end-to-end program monitor only.
+def _program_tables():
+    import importlib.util
+    import os
+    here = os.path.dirname(os.path.dirname(os.path.abspath(__file__)))
+    spec = importlib.util.spec_from_file_location("akai_program_writer_tables", os.path.join(here, "bounded", "akai_program_writer.py"))
+    m = importlib.util.module_from_spec(spec)
+    spec.loader.exec_module(m)
+    kind = {"B": "u8", "b": "i8"}
+
+    def rows(tbl, limit=None):
+        out = []
+        for (_model, off, fmt, _dflt, key, _k) in tbl:
+            if key is None or (limit is not None and off >= limit):
+                continue
+            out.append((key, off, 1, kind[fmt]))
+        return out
+    zone = [(key, off, 1, kind[fmt]) for (_m, off, fmt, _d, key, _k) in m.ZONE_FIELDS]
+    return {
+        "akai.program:ProgramHeaderConstruct": {"size": m.HEADER_TAIL_OFFSET, "fields": rows(m.HEADER_FIELDS) + [
+            ("first_keygroup_address", m.HEADER_FIRST_KG_OFFSET, 2, "u16le"), ("program_name", m.HEADER_NAME_OFFSET, 12, "bytes"),
+            ("number_of_keygroups", m.HEADER_GROUPS_OFFSET, 1, "u8"), ("key_temperaments", m.HEADER_TEMPER_OFFSET, 12, "array")]},
+        "akai.keygroup:KeygroupConstruct": {"fields": rows(m.KEYGROUP_FIELDS, limit=34) + [
+            ("next_keygroup_address", m.KEYGROUP_NEXT_OFFSET, 2, "u16le"), ("num_velocity_zones", 31, 1, "u8")]},
+        "akai.keygroup:VelocityZoneConstruct": {"size": 24, "fields": zone + [("sample_name", 0, 12, "bytes")]},
+    }
+
+
+TABLES.update(_program_tables())
+
 BY_PROPERTY = {
-    "C20": ["akai.sample:SampleHeaderConstruct", "roland.sample_entry:SampleParamEntryStruct", "roland.sample_entry:SampleParamLoopPointStruct"],
+    "C20": ["akai.sample:SampleHeaderConstruct", "roland.sample_entry:SampleParamEntryStruct", "roland.sample_entry:SampleParamLoopPointStruct",
+            "akai.program:ProgramHeaderConstruct", "akai.keygroup:KeygroupConstruct", "akai.keygroup:VelocityZoneConstruct"],
     "C01": ["akai.sample:SampleHeaderConstruct", "akai.file_entry:FileEntryConstruct", "akai.volume:VolumeEntryConstruct",
             "akai.partition:PartitionHeaderConstruct"],
     "C02": ["roland.sample_entry:SampleParamEntryStruct", "roland.sample_entry:SampleParamLoopPointStruct"],
